@@ -60,7 +60,7 @@ Definition py_get (s : state) (k : pykey) : state * pyres :=
   end.
 
 Definition with_mem (s : state) (m : list particle) (ob : nat) : state :=
-  mkS m (sN s) (sNact s) (sNvar s) (tab s) (nlook s) (tree s) ob.
+  mkS (tcfg s) m (sN s) (sNact s) (sNvar s) (tab s) (nlook s) (tree s) ob.
 
 Definition of_result (r : result) : pyres := match r with RFail => PRRuntimeError | _ => PRNone end.
 
@@ -178,7 +178,7 @@ Theorem py_setitem : forall s k p s' r, wf s -> py_step s (PySet k p) = (s', r) 
   ((r = PRNone /\ exists i, i < length (aps (abs s)) /\
       (match k with KInt z => py_index (length (aps (abs s))) z = Some i
                   | _ => Some (phash (nth i (aps (abs s)) pzero)) = key_hash k end) /\
-      abs s' = mkA (upd (aps (abs s)) i p) (aNact (abs s)) (aNvar (abs s)) (atree (abs s)))
+      abs s' = mkA (acfg (abs s)) (upd (aps (abs s)) i p) (aNact (abs s)) (aNvar (abs s)) (atree (abs s)))
    \/ ((r = PRAttributeError \/ r = PRNotFound) /\ abs s' = abs s)).
 Proof.
   intros s k p s' r Hwf H. pose proof (abs_len s Hwf) as HL. cbn [py_step] in H.
